@@ -187,7 +187,7 @@ def solve_call(ctx, s, name, Ns, P, tag):
 
 
 OPS = ["P=scalar", "P=vector", "P=None", "set_precoders(F)", "set_precoders(F,P)",
-       "set_precoders(full_F)", "set_receive_filters(W_H)", "set_receive_filters(W)",
+       "set_precoders(full_F)", "set_precoders(full_F,P)", "set_receive_filters(W_H)", "set_receive_filters(W)",
        "randomizeF", "solve-again", "read-all"]
 
 
@@ -258,6 +258,13 @@ def case_solve(ctx, rng, idx):
                 newF = [rand_c(rng, Nt[k], cur_Ns[k]) for k in range(K)]
                 s.set_precoders(full_F=obj_array(
                     [f / fro(f) * math.sqrt(Pn[k]) for k, f in enumerate(newF)]))
+            elif op == "set_precoders(full_F,P)":
+                # power-scaled precoders that use only part of the stated budget
+                Pn = 10.0 ** rng.uniform(-1, 2, size=K)
+                newF = [rand_c(rng, Nt[k], cur_Ns[k]) for k in range(K)]
+                s.set_precoders(full_F=obj_array(
+                    [f / fro(f) * math.sqrt(Pn[k] * rng.uniform(0.05, 1.0))
+                     for k, f in enumerate(newF)]), P=Pn)
             elif op == "set_receive_filters(W_H)":
                 s.set_receive_filters(W_H=obj_array(
                     [rand_c(rng, cur_Ns[k], Nr[k]) for k in range(K)]))
@@ -300,6 +307,12 @@ def case_solve(ctx, rng, idx):
         ex = exact or bool(touched_after)
         if "set_precoders(full_F)" in touched_after and not exact:
             ex = False
+        if touched_after and touched_after[-1] == "set_precoders(full_F,P)" or (
+                "set_precoders(full_F,P)" in touched_after and not any(
+                    h in ("set_precoders(F)", "set_precoders(F,P)", "randomizeF", "P=scalar",
+                          "P=vector", "P=None", "set_precoders(full_F)")
+                    for h in touched_after[touched_after.index("set_precoders(full_F,P)") + 1:])):
+            ex = False          # full_F was given below the budget: direction only
         cf = name == "closed" and all(h in ("solve", "solve-again", "read-all", "P=scalar",
                                             "P=vector", "P=None") for h in hist)
         check_relations(ctx, s, name, Hkl, ex, {**tag, "history": list(hist)}, closed_form=cf)
